@@ -908,13 +908,13 @@ def tree_families(tier, dkey, L):
                                      if not all(is_leaf(x) for x in t[1:])]
     if tier == 'thorough':
         fam['depth2-Subset-operators'] = [('subset', t) for t in exactly(r4, 2)]
-        # every leaf kind nested at depth 2, next to the first three representatives
+        # every leaf kind nested at depth 2, next to the first two representatives
         inner = _uniq(depth1(L, r6) + depth1(r6, L))
         nested = []
         for t in inner:
             nested.append(('state', ['~', t]))
             for op in '&|^':
-                for r in r6[:3]:
+                for r in r6[:2]:
                     nested.append(('state', [op, t, r]))
                     nested.append(('state', [op, r, t]))
         fam['depth2-every-leaf-kind-nested'] = nested
